@@ -632,7 +632,8 @@ def sym_sqrt(x):
             x = float(x)
         return math.sqrt(x)
     cx = Ctx.current
-    t = z3.simplify(real_term(x))
+    # sum-of-monomials normal form: equal polynomials written differently share one witness
+    t = z3.simplify(real_term(x), som=True)
     if z3.is_rational_value(t):
         f = fractions.Fraction(t.numerator_as_long(), t.denominator_as_long())
         if f >= 0:
@@ -730,6 +731,19 @@ def _term_vars(t):
         else:
             stack.extend(e.children())
     return acc
+
+
+def _dag_size(t, cap):
+    seen = set()
+    stack = [t]
+    while stack and len(seen) < cap:
+        e = stack.pop()
+        i = e.get_id()
+        if i in seen:
+            continue
+        seen.add(i)
+        stack.extend(e.children())
+    return len(seen)
 
 
 class Ctx(object):
@@ -1070,7 +1084,7 @@ class Ctx(object):
             self.stats.identity += 1
             self.checks_on_path += 1
             return True
-        if not z3.is_bool(ta):
+        if not z3.is_bool(ta) and _dag_size(ta, 600) + _dag_size(tb, 600) < 600:
             try:
                 d = z3.simplify(ta - tb, som=True)
                 if (z3.is_rational_value(d) or z3.is_int_value(d)) and d.as_fraction() == 0:
@@ -1105,6 +1119,19 @@ class Ctx(object):
     def fail(self, label, detail=None):
         """path-level failure (e.g. undeclared exception): candidate iff pc is sat"""
         return self.check(label, False, detail)
+
+    def assume_obligations(self, only=None):
+        """turn the pending domain obligations (non-zero denominators, non-negative
+        radicands) into assumptions: the harness claims nothing outside the domain on
+        which the computed expressions are defined.  Listed in the evidence."""
+        keep = []
+        for t, what in self.obligs:
+            if only is not None and not any(o in what for o in only):
+                keep.append((t, what))
+                continue
+            self.notes.setdefault("assumed_domain", set()).add(what)
+            self.assume(wrap(t))
+        self.obligs = keep
 
     def discharge_obligations(self):
         ok = True
